@@ -6,6 +6,12 @@ from externals.os_model import files
 
 class BinTableHDU:
     def __init__(self, data=None, header=None, name=None):
+        if header is not None:
+            for k in header:
+                v = header[k]
+                # a FITS card holds an ASCII string, a number, a boolean or nothing (astropy raises ValueError otherwise)
+                if not (v is None or isinstance(v, (str, int, float, bool))) or (isinstance(v, str) and not v.isascii()):
+                    raise ValueError('Illegal value: ' + repr(v))
         self._table = data
         self.header = header
         self.name = 'REGION' if header is None or 'EXTNAME' not in header else header['EXTNAME']
